@@ -28,6 +28,32 @@ def import_pregex():
     return pregex
 
 
+def members(owner, *names):
+    """the named attributes of a class / module that exist in the current tree; if one is missing (renamed or moved by
+    a refactoring) the owner itself is fingerprinted instead, so the evidence still covers the code"""
+    got = [getattr(owner, n) for n in names if hasattr(owner, n)]
+    if len(got) < len(names):
+        got.append(owner)
+    return got
+
+
+def resolve(pairs):
+    """[(owner, attribute name) | (None, object)] -> objects; a name the current tree no longer has (renamed / moved by a
+    refactoring) is replaced by its owner, so the evidence still fingerprints the code and the check does not depend on it"""
+    out, seen = [], set()
+    for owner, x in pairs:
+        if owner is None:
+            o = x
+        elif hasattr(owner, x):
+            o = getattr(owner, x)
+        else:
+            o = owner
+        if id(o) not in seen:
+            seen.add(id(o))
+            out.append(o)
+    return out
+
+
 def src_fingerprint(objs):
     """[{'name','file','lines','sha256'}] for the functions/classes encoded by a check
     (read from the live modules = current working tree)."""
